@@ -320,6 +320,10 @@ pub struct Knobs {
     pub dense_reads: bool,
     /// run the engine audit after every action
     pub audit: bool,
+    /// the property being checked: violations of *other* properties do not end the run early
+    /// (panics always do). Empty = any violation ends the run.
+    #[serde(default)]
+    pub stop_on: String,
 }
 
 #[derive(Serialize, Deserialize, Clone, Debug, PartialEq)]
